@@ -93,7 +93,11 @@ func c18History(args []string) error {
 				if err != nil {
 					return err
 				}
-				st = c18Generate(filepath.Base(p), p, string(b), "")
+				name := filepath.Base(p)
+				if strings.Contains(p, "/testing/") {
+					name = p[strings.Index(p, "/testing/")+1:] // testing/cpp/json/json.tm and testing/cpp/json_flex/json.tm share a base name
+				}
+				st = c18Generate(name, p, string(b), "")
 			}
 			st.Proc, st.Step = label, step
 			step++
